@@ -55,6 +55,9 @@ func (bvl *blockCommitVoteList) VerifyBlock(block module.BlockData, validators m
 	for i, item := range bvl.Items {
 		msg.Timestamp = item.Timestamp
 		msg.setSignature(item.Signature)
+		if msg.address() == nil {
+			return nil, errors.Errorf("bad signature at index %d in vote list", i)
+		}
 		index := validators.IndexOf(msg.address())
 		if index < 0 {
 			return nil, errors.Errorf("bad voter %v at index %d in vote list", msg.address(), i)
@@ -245,9 +248,12 @@ func (vl *CommitVoteList) toVoteList(
 	if len(vl.Items) > 0 && validators == nil {
 		return nil, errors.Errorf("nil validators with voteListItems len(vl.Items)=%d", len(vl.Items))
 	}
-	for _, item := range vl.Items {
+	for i, item := range vl.Items {
 		msg.Timestamp = item.Timestamp
 		msg.setSignature(item.Signature)
+		if msg.address() == nil {
+			return nil, errors.Errorf("bad signature at index %d in vote list", i)
+		}
 		vIdx := validators.IndexOf(msg.address())
 		if vIdx < 0 {
 			return nil, errors.Errorf("not a validator address=%s", msg.address().String())
